@@ -375,6 +375,11 @@ mod std_mutex {
             rt::before(K_LOCK, self as *const _ as usize);
             self.m.try_lock()
         }
+        /// harness-side access to the protected data (replay only; takes the lock briefly)
+        pub unsafe fn peek(&self) -> &mut T {
+            let mut g = self.m.lock().unwrap();
+            &mut *(&mut *g as *mut T)
+        }
     }
 }
 pub use self::std_mutex::Mutex;
@@ -486,6 +491,11 @@ pub mod parking_lot {
                 }
                 self.m.lock()
             }
+            /// harness-side access (replay only)
+            pub unsafe fn peek(&self) -> &mut T {
+                let mut g = self.m.lock();
+                &mut *(&mut *g as *mut T)
+            }
         }
         impl<T: Default> Default for Mutex<T> {
             fn default() -> Mutex<T> {
@@ -522,12 +532,16 @@ pub mod parking_lot {
 pub mod ledger {
     /// live allocations made through crate::alloc (count and byte-blind identity by address)
     pub const CAP: usize = 24;
+    /// entries of the table actually used (loops over the table are bounded by this)
+    pub static mut CAP_USED: usize = 8;
     pub static mut LIVE_ADDR: [usize; CAP] = [0; CAP];
     pub static mut LIVE_N: usize = 0;
     pub static mut ALLOCS: usize = 0;
     pub static mut DEALLOCS: usize = 0;
     pub static mut BAD_FREE: usize = 0; // deallocate of an address that is not live (double free)
     pub static mut ON: bool = false;
+    /// live allocations by size class (bytes/8, capped at 15) -- diagnostics for the native demos
+    pub static mut SIZE_HIST: [isize; 16] = [0; 16];
 }
 
 pub fn on_allocate(addr: usize, num: usize, size: usize) {
@@ -539,8 +553,13 @@ pub fn on_allocate(addr: usize, num: usize, size: usize) {
         if num * size == 0 {
             return;
         }
+        #[cfg(not(kani))]
+        {
+            let c = if num * size / 8 > 15 { 15 } else { num * size / 8 };
+            ledger::SIZE_HIST[c] += 1;
+        }
         let mut i = 0;
-        while i < ledger::CAP {
+        while i < ledger::CAP_USED {
             if ledger::LIVE_ADDR[i] == 0 {
                 ledger::LIVE_ADDR[i] = addr;
                 ledger::LIVE_N += 1;
@@ -561,8 +580,13 @@ pub fn on_deallocate(addr: usize, num: usize, size: usize) {
         if num * size == 0 {
             return;
         }
+        #[cfg(not(kani))]
+        {
+            let c = if num * size / 8 > 15 { 15 } else { num * size / 8 };
+            ledger::SIZE_HIST[c] -= 1;
+        }
         let mut i = 0;
-        while i < ledger::CAP {
+        while i < ledger::CAP_USED {
             if ledger::LIVE_ADDR[i] == addr {
                 ledger::LIVE_ADDR[i] = 0;
                 ledger::LIVE_N -= 1;
@@ -616,9 +640,10 @@ pub mod pay {
                 assert!(self.ser < MAXSER && STATE[self.ser] == 1, "C04/C05: clone of a payload that is not live");
                 IN_USER += 1;
                 let v0 = self.val;
+                let s0 = self.ser;
                 super::rt::before(super::K_USER, self as *const Pay as usize);
                 // the value must not change (and must stay live) while the clone is running
-                assert!(self.val == v0, "C04: payload changed during clone");
+                assert!(self.val == v0 && self.ser == s0, "C04: payload changed during clone");
                 assert!(STATE[self.ser] == 1, "C04: payload destroyed during clone");
                 IN_USER -= 1;
                 CLONES += 1;
